@@ -458,7 +458,7 @@ def c08(tr, cx):
             if pm and pm[e[4]] != pm[e[5]]:   # re-queued at the tail of the new priority class
                 seq += 1; joined[(e[2], e[3])] = seq
         if e[0] != 'attach': continue
-        _, t, nid, cid, sid, prio, arr, intr, waiting, inserv, off, insrv, nintr, order, hadserver, ctx = e
+        _, t, nid, cid, sid, prio, arr, intr, waiting, inserv, off, insrv, nintr, order, hadserver, ctx = e[:16]
         if intr: continue
         disc = spec['nodes'][nid - 1]['discipline']
         tr.count('C08.service_starts')
@@ -855,7 +855,7 @@ def c12(tr, cx):
             sv = spec['nodes'][e[2] - 1]['servers']
             if not timetable(sv, float(e[1]))[2]: tr.v('C12', 'shift_change_not_at_boundary', e)
         if e[0] == 'attach':
-            _, t, nid, cid, sid, prio, arr, intr, waiting, inserv, off, insrv, nintr, order, had, ctx = e
+            _, t, nid, cid, sid, prio, arr, intr, waiting, inserv, off, insrv, nintr, order, had, ctx = e[:16]
             if nk(spec, nid)[1] != 'schedule': continue
             sv = spec['nodes'][nid - 1]['servers']
             before, after, isb = timetable(sv, float(t))
